@@ -35,11 +35,23 @@ type verifAssets struct {
 	globals     *flows.GlobalAssets
 	locations   *flows.LocationAssets
 	lookups     []assets.FlowUUID
+	topics      *flows.TopicAssets
+	users       *flows.UserAssets
 }
 
-func (a *verifAssets) Topics() *flows.TopicAssets           { return flows.NewTopicAssets(nil) }
+func (a *verifAssets) Topics() *flows.TopicAssets {
+	if a.topics != nil {
+		return a.topics
+	}
+	return flows.NewTopicAssets(nil)
+}
 func (a *verifAssets) Classifiers() *flows.ClassifierAssets { return flows.NewClassifierAssets(nil) }
-func (a *verifAssets) Users() *flows.UserAssets             { return flows.NewUserAssets(nil) }
+func (a *verifAssets) Users() *flows.UserAssets {
+	if a.users != nil {
+		return a.users
+	}
+	return flows.NewUserAssets(nil)
+}
 func (a *verifAssets) Labels() *flows.LabelAssets           { return flows.NewLabelAssets(nil) }
 func (a *verifAssets) Templates() *flows.TemplateAssets     { return flows.NewTemplateAssets(nil) }
 func (a *verifAssets) Resthooks() *flows.ResthookAssets     { return flows.NewResthookAssets(nil) }
